@@ -185,7 +185,7 @@ func TestCheck(t *testing.T) {
 		}
 	}
 	// (4) generated non-canonical packets and structure-aware mutants
-	ng := r.Pick(50000, 2000000)
+	ng := r.Pick(50000, 6000000)
 	var prev []byte
 	for i := 0; i < ng; i++ {
 		if !r.Mine(i) {
